@@ -55,8 +55,16 @@ func (r *Run) checkSpeciatePartition(label string) {
 		return
 	}
 	r.Fn(FuncName(fn))
-	create := p.Func(PkgG, "createFirstSpecies")
+	// founding: a call of createFirstSpecies (function or method of Population), or its body in place (a fresh species on the path)
+	create := foundingFunc(p)
 	speciesF := p.Field(PkgG, "Organism", "Species")
+	locals := structLocals(fn)
+	loops := Loops(fn)
+	sums := NewSummaries(p)
+	freshAll := freshSpeciesValues(p, sums, fn)
+	if create == nil && len(freshAll) == 0 {
+		p.Func(PkgG, "createFirstSpecies") // neither a founding function nor founding in place: the anchor is missing
+	}
 	paths, complete := EnumIterPaths(fn, sh.outer, 2000)
 	if !complete {
 		r.Undecided(label, p.Pos(fn.Pos()), "too many paths through one iteration of the organism loop")
@@ -73,6 +81,8 @@ func (r *Run) checkSpeciatePartition(label string) {
 			continue
 		}
 		nBack++
+		seq := newLocalPathSeq(fn, locals, ip.Blocks[:len(ip.Blocks)-1])
+		fresh := freshOnPath(ip, freshAll)
 		var creates []ssa.CallInstruction
 		var adds []*memberAdd // addOrganism calls, or the helper's append written in place
 		var backptrs []*ssa.Store
@@ -88,7 +98,7 @@ func (r *Run) checkSpeciatePartition(label string) {
 				}
 				switch x := in.(type) {
 				case ssa.CallInstruction:
-					if x.Common().StaticCallee() == create {
+					if create != nil && x.Common().StaticCallee() == create {
 						creates = append(creates, x)
 					}
 				case *ssa.Store:
@@ -100,13 +110,8 @@ func (r *Run) checkSpeciatePartition(label string) {
 		}
 		pos := p.Pos(firstPos(ip))
 		lbl := label + ".path[" + pathKey(ip) + "]"
-		switch {
-		case otherListWrites > 0:
-			r.Bad(lbl, pos, fmt.Sprintf("one pass over an organism replaces a species' organism list %d time(s) other than by appending one organism to it: members are dropped or listed without the comparison", otherListWrites), ip.Describe(p)...)
-		case len(creates) == 1 && len(adds) == 0 && len(backptrs) == 0:
-			a := callArgTerms(tm, creates[0].Common())
-			okArgs := a[0].Op == "recv" && a[1].Op == "elem" && isParamIdx(a[1].Args[0], 2)
-			// reached only with no species at all or no compatible species selected
+		// a founding path is reached only with no species at all or no compatible species selected
+		foundingJustified := func() bool {
 			justified := false
 			for _, g := range ip.Conds {
 				gt := tm.Of(g.Cond)
@@ -119,21 +124,46 @@ func (r *Run) checkSpeciatePartition(label string) {
 				if gt.Op == "bin" && gt.Name == "==" && g.True && gt.Args[1].Op == "nil" {
 					justified = true
 				}
-				// !done, where done is a flag that is true exactly when a species was selected
+				// !done, where done is a flag that is true exactly when a species was selected: an SSA-promoted
+				// local or a boolean field of a struct-valued local
 				if _, isPhi := g.Cond.(*ssa.Phi); isPhi && !g.True {
 					justified = true
 				}
+				if c, isCell := cellOfLoad(locals, g.Cond); isCell && !g.True && c.typ() != nil && typeShort(c.typ()) == "bool" {
+					justified = true
+				}
 			}
-			r.Check(okArgs && justified, lbl, pos, "a new species is founded for the organism (no species exist / none was selected)",
+			return justified
+		}
+		switch {
+		case otherListWrites > 0:
+			r.Bad(lbl, pos, fmt.Sprintf("one pass over an organism replaces a species' organism list %d time(s) other than by appending one organism to it: members are dropped or listed without the comparison", otherListWrites), ip.Describe(p)...)
+		case len(fresh) > 0:
+			// founding written in place: one fresh species, which lists the current organism and is pointed back to by it
+			// (its id, novelty and registration with the population are the subject of checkCreateFirstSpecies)
+			if len(fresh) != 1 || len(creates) != 0 || len(adds) != 1 || len(backptrs) != 1 || adds[0].Species != fresh[0] || backptrs[0].Val != fresh[0] {
+				r.Bad(lbl, pos, fmt.Sprintf("one pass over an organism creates %d new species in place and performs %d createFirstSpecies, %d addOrganism and %d back-pointer stores; expected one new species that lists the organism and is pointed back to by it: the organism ends up in no species, in two, or listed without pointing back", len(fresh), len(creates), len(adds), len(backptrs)), ip.Describe(p)...)
+				continue
+			}
+			ff := foundingOnPath(p, sums, fn, tm, loops, sh.outer, ip, fresh[0])
+			orgT := tm.Of(adds[0].Org)
+			okArgs := ff.Added && ff.Back && ff.Once && tm.Of(backptrs[0].Addr.(*ssa.FieldAddr).X).String() == orgT.String()
+			r.Check(okArgs && foundingJustified(), lbl, pos, "a new species is founded in place for the organism (no species exist / none was selected)",
+				"a new species is founded on a path where a compatible species may have been selected, or not (exactly once) for the current organism", ip.Describe(p)...)
+		case len(creates) == 1 && len(adds) == 0 && len(backptrs) == 0:
+			a := callArgTerms(tm, creates[0].Common())
+			okArgs := a[0].Op == "recv" && a[1].Op == "elem" && isParamIdx(a[1].Args[0], 2)
+			r.Check(okArgs && foundingJustified(), lbl, pos, "a new species is founded for the organism (no species exist / none was selected)",
 				"a new species is founded on a path where a compatible species may have been selected, or not for the current organism", ip.Describe(p)...)
 		case len(creates) == 0 && len(adds) == 1 && len(backptrs) == 1:
 			best := adds[0].Species
 			orgT := tm.Of(adds[0].Org)
-			okSame := backptrs[0].Val == best
+			// the same species value; for a field of a struct-valued local: two reads with no write in between
+			okSame := seq.sameValue(backptrs[0].Val, best, loops, sh.outer)
 			okOrg := orgT.Op == "elem" && isParamIdx(orgT.Args[0], 2) && tm.Of(backptrs[0].Addr.(*ssa.FieldAddr).X).String() == orgT.String()
 			nonNil := false
 			for _, g := range ip.Conds {
-				if b, ok := g.Cond.(*ssa.BinOp); ok && (b.X == best || b.Y == best) {
+				if b, ok := g.Cond.(*ssa.BinOp); ok && (seq.sameValue(b.X, best, loops, sh.outer) || seq.sameValue(b.Y, best, loops, sh.outer)) {
 					if (b.Op == token.NEQ && g.True) || (b.Op == token.EQL && !g.True) {
 						nonNil = true
 					}
@@ -249,42 +279,60 @@ func C08(p *Prog, r *Run) {
 		} else {
 			r.OK("representative", p.Pos(sh.compat.Pos()), "Species.firstOrganism no longer exists; the representative is read in place (distance.arguments)")
 		}
-		// header phis: best species (pointer), best value (float), done flag
-		var bestSp, bestVal *ssa.Phi
+		// the running best species (pointer) and best distance (float) of the scan: locals carried around the loop -
+		// SSA-promoted ones (header phis) or fields of one struct-valued local that the scan writes
+		locals := structLocals(fn)
+		var bestSp, bestVal *scanVar
 		for _, ph := range HeaderPhis(sh.inner) {
 			ts := typeShort(ph.Type())
 			switch {
 			case strings.HasSuffix(ts, "genetics.Species"):
-				bestSp = ph
+				bestSp = &scanVar{phi: ph}
 			case ts == "float64":
-				bestVal = ph
+				bestVal = &scanVar{phi: ph}
 			}
 		}
-		if bestSp == nil || bestVal == nil {
+		nSpCells, nValCells := 0, 0
+		for _, c := range loopCells(fn, locals, sh.inner) {
+			c := c
+			if c.typ() == nil {
+				continue
+			}
+			ts := typeShort(c.typ())
+			switch {
+			case strings.HasSuffix(ts, "genetics.Species") && (bestSp == nil || bestSp.cell != nil):
+				bestSp = &scanVar{cell: &c}
+				nSpCells++
+			case ts == "float64" && (bestVal == nil || bestVal.cell != nil):
+				bestVal = &scanVar{cell: &c}
+				nValCells++
+			}
+		}
+		if bestSp == nil || bestVal == nil || nSpCells > 1 || nValCells > 1 {
 			r.Undecided("argmin.state", p.Pos(fn.Pos()), "cannot find the running best species / best distance of the scan")
 			return
 		}
 		// initial values
-		initOK := false
-		for i, e := range bestVal.Edges {
-			if !sh.inner.Blocks[bestVal.Block().Preds[i]] {
-				if c, ok := e.(*ssa.Const); ok && c.Value != nil {
-					f, _ := constant.Float64Val(c.Value)
-					initOK = f >= math.MaxFloat64 || math.IsInf(f, 1)
-				}
-				if t := tm.Of(e); t.Op == "call" && t.Name == "math.Inf" && !strings.HasPrefix(t.Args[0].String(), "-") {
-					initOK = true
-				}
+		valInits, valKnown := bestVal.initValues(fn, locals, sh.inner)
+		initOK := len(valInits) > 0
+		for _, e := range valInits {
+			okE := false
+			if c, ok := e.(*ssa.Const); ok && c.Value != nil {
+				f, _ := constant.Float64Val(c.Value)
+				okE = f >= math.MaxFloat64 || math.IsInf(f, 1)
 			}
-		}
-		r.Check(initOK, "argmin.init", p.Pos(fn.Pos()), "the best distance starts at the largest float", "the best distance does not start at a value that no distance exceeds: species farther than it can never be selected")
-		spInit := false
-		for i, e := range bestSp.Edges {
-			if !sh.inner.Blocks[bestSp.Block().Preds[i]] && tm.Of(e).Op == "nil" {
-				spInit = true
+			if t := tm.Of(e); t.Op == "call" && t.Name == "math.Inf" && !strings.HasPrefix(t.Args[0].String(), "-") {
+				okE = true
 			}
+			initOK = initOK && okE
 		}
-		r.Check(spInit, "argmin.init-species", p.Pos(fn.Pos()), "no species is selected before the scan", "a species is pre-selected before the scan")
+		r.Check(initOK && valKnown, "argmin.init", p.Pos(fn.Pos()), "the best distance starts at the largest float", "the best distance does not start at a value that no distance exceeds: species farther than it can never be selected")
+		spInits, spKnown := bestSp.initValues(fn, locals, sh.inner)
+		spInit := len(spInits) > 0
+		for _, e := range spInits {
+			spInit = spInit && tm.Of(e).Op == "nil"
+		}
+		r.Check(spInit && spKnown, "argmin.init-species", p.Pos(fn.Pos()), "no species is selected before the scan", "a species is pre-selected before the scan")
 		paths, complete := EnumIterPaths(fn, sh.inner, 500)
 		if !complete {
 			r.Undecided("argmin.paths", p.Pos(fn.Pos()), "too many paths")
@@ -298,7 +346,9 @@ func C08(p *Prog, r *Run) {
 				continue
 			}
 			n++
-			ns, nv := ip.NextValue(bestSp), ip.NextValue(bestVal)
+			seq := newLocalPathSeq(fn, locals, ip.Blocks[:len(ip.Blocks)-1])
+			ns, updSp, knownSp := bestSp.next(ip, seq)
+			nv, updVal, knownVal := bestVal.next(ip, seq)
 			underThr, underBest, evaluated := false, false, ip.OnPath(sh.compat)
 			for _, g := range ip.Conds {
 				b, ok := g.Cond.(*ssa.BinOp)
@@ -325,18 +375,25 @@ func C08(p *Prog, r *Run) {
 				if yt := tm.Of(y); yt.Op == "field" && yt.Name == "CompatThreshold" {
 					underThr = true
 				}
-				if y == ssa.Value(bestVal) {
+				if bestVal.isCurrent(y, seq) {
 					underBest = true
 				}
 			}
-			updated := ns != ssa.Value(bestSp) || nv != ssa.Value(bestVal)
+			updated := updSp || updVal
 			pos := p.Pos(firstPos(ip))
 			lbl := "argmin.path[" + pathKey(ip) + "]"
 			switch {
 			case updated:
-				okU := evaluated && underThr && underBest && nv == dist && tm.Of(ns).String() == "recv.Species[*]"
+				okU := evaluated && underThr && underBest && knownSp && knownVal && nv == dist && tm.Of(ns).String() == "recv.Species[*]"
+				nsT, nvT := "?", "?"
+				if ns != nil {
+					nsT = tm.Of(ns).String()
+				}
+				if nv != nil {
+					nvT = tm.Of(nv).String()
+				}
 				r.Check(okU, lbl, pos, "update: (best, bestDistance) <- (this species, its distance) under distance < threshold and distance < best-so-far",
-					fmt.Sprintf("the running best is updated to (%s, %s) on a path with distance<threshold=%v, distance<best-so-far=%v; both tests (strict, distance on the smaller side) must hold and both values must be set together", tm.Of(ns), tm.Of(nv), underThr, underBest), ip.Describe(p)...)
+					fmt.Sprintf("the running best is updated to (%s, %s) on a path with distance<threshold=%v, distance<best-so-far=%v; both tests (strict, distance on the smaller side) must hold and both values must be set together", nsT, nvT, underThr, underBest), ip.Describe(p)...)
 			default:
 				okK := !(underThr && underBest)
 				// a species may be passed over only after its distance was measured (and failed a test), or because it has no
@@ -391,10 +448,20 @@ func C08(p *Prog, r *Run) {
 
 	r.Rule("C08.4", "only speciate assigns membership: addOrganism is called from speciate and createFirstSpecies only, createFirstSpecies from speciate only, and nobody else stores an organism's Species back pointer - so every organism that is in a species was compared with the representatives first", func() {
 		spec := p.Func(PkgG, "Population.speciate")
-		cfs := p.Func(PkgG, "createFirstSpecies")
+		// the founding function (createFirstSpecies, possibly as a method of Population); nil when founding is written in place in
+		// speciate: then each fresh species created there is a founding site
+		cfs := foundingFunc(p)
 		add := p.FuncOpt(PkgG, "Species.addOrganism")
 		back := p.Field(PkgG, "Organism", "Species")
 		nCalls, nSt := 0, 0
+		inPlace := freshSpeciesValues(p, NewSummaries(p), spec)
+		if cfs == nil && len(inPlace) == 0 {
+			p.Func(PkgG, "createFirstSpecies") // no founding code at all: the anchor is missing
+		}
+		for _, sp := range inPlace {
+			nCalls++
+			r.OK("createFirstSpecies.caller:"+spec.Name(), p.Pos(sp.Pos()), "a species founded in place by speciate")
+		}
 		for _, fn := range p.SrcFuncs() {
 			if fn != spec && fn != cfs && fn != add && expandedHelper(p, fn) {
 				// the declaration of a new private helper whose every call was expanded in place (source normalisation):
@@ -409,6 +476,9 @@ func C08(p *Prog, r *Run) {
 				}
 			})
 			for _, c := range CallsTo(fn, cfs) {
+				if cfs == nil {
+					break
+				}
 				nCalls++
 				r.Check(fn == spec, "createFirstSpecies.caller:"+fn.Name(), p.Pos(c.Pos()), "called by speciate", FuncName(fn)+" founds a species for an organism outside speciate: whether an existing representative is within the threshold is not examined")
 			}
@@ -454,12 +524,24 @@ func firstBlockPos(b *ssa.BasicBlock) token.Pos {
 // new object when createFirstSpecies returns.
 func (r *Run) checkCreateFirstSpecies(label string) {
 	p := r.P
-	fn := p.Func(PkgG, "createFirstSpecies")
+	fn := foundingFunc(p)
+	// founding written in place in speciate (createFirstSpecies turned into a helper the pinned tree does not have, or written out by hand)
+	nSites, incs := r.checkFoundingInPlace(label)
+	if fn == nil {
+		if nSites == 0 {
+			p.Func(PkgG, "createFirstSpecies") // no founding code at all: the anchor is missing
+		}
+		r.checkLastSpeciesWriters(label, nil, incs)
+		return
+	}
 	r.Fn(FuncName(fn))
 	tm := NewTermer(fn)
 	last := p.Field(PkgG, "Population", "LastSpecies")
 	var rets []*ssa.Return
 	for _, b := range fn.Blocks {
+		if b == fn.Recover {
+			continue // where a function with a deferred call resumes after a recovered panic: not a path of the founding
+		}
 		if ret, ok := b.Instrs[len(b.Instrs)-1].(*ssa.Return); ok {
 			rets = append(rets, ret)
 		}
@@ -542,7 +624,7 @@ func (r *Run) checkCreateFirstSpecies(label string) {
 		if x, ok := in.(*ssa.Store); ok {
 			if f := StoredField(x); f != nil {
 				if f == p.Field(PkgG, "Population", "Species") {
-					if base, elems, ok := appendCall(x.Val); ok && len(elems) == 1 && elems[0] == sp && tm.Of(base).String() == "p0.Species" && isParamIdx(tm.Of(x.Addr.(*ssa.FieldAddr).X), 0) {
+					if base, elems, ok := appendCall(x.Val); ok && len(elems) == 1 && elems[0] == sp && isPopSpecies(tm.Of(base)) && isParamIdx(tm.Of(x.Addr.(*ssa.FieldAddr).X), 0) {
 						appended = true
 					}
 				}
@@ -554,21 +636,152 @@ func (r *Run) checkCreateFirstSpecies(label string) {
 	})
 	r.Check(appended && added && back, label+".links", p.Pos(fn.Pos()), "appended to the population, lists the organism, organism points back",
 		fmt.Sprintf("new species appended=%v, lists the organism=%v, organism points back=%v", appended, added, back))
-	// the only writers of LastSpecies
-	var others []string
-	for _, f := range p.SrcFuncs() {
-		if f == fn {
-			continue
-		}
-		for _, st := range FieldStores(f, last) {
-			others = append(others, FuncName(f)+" at "+p.Pos(st.Pos()))
-		}
-	}
-	r.Check(len(others) == 0, label+".only-writer", p.Pos(fn.Pos()), "no other function writes LastSpecies", "LastSpecies is also written by "+strings.Join(others, "; ")+": an id can be issued twice")
+	r.checkLastSpeciesWriters(label, fn, incs)
 	// the constructor: a fresh species of Age 1 (Id and IsNovel are examined above)
 	ctorPos := spPos
 	if c, ok := sp.(*ssa.Call); ok && c.Call.StaticCallee() != nil {
 		ctorPos = p.Pos(c.Call.StaticCallee().Pos())
 	}
 	r.Check(okAge, label+".NewSpeciesNovel", ctorPos, "a fresh species with Age 1, Id and IsNovel as given", "the new species is not a fresh object of Age 1 when createFirstSpecies returns")
+}
+
+// checkLastSpeciesWriters: LastSpecies is written only by the founding code - the founding function, and the
+// increments of the foundings written in place in speciate (inPlace).
+func (r *Run) checkLastSpeciesWriters(label string, founding *ssa.Function, inPlace map[*ssa.Store]bool) {
+	p := r.P
+	last := p.Field(PkgG, "Population", "LastSpecies")
+	spec := p.Func(PkgG, "Population.speciate")
+	pos := p.Pos(spec.Pos())
+	if founding != nil {
+		pos = p.Pos(founding.Pos())
+	}
+	var others []string
+	for _, f := range p.SrcFuncs() {
+		if f == founding {
+			continue
+		}
+		if f != spec && expandedHelper(p, f) {
+			continue // a declaration nothing executes (every call of it was expanded in place, where it is examined)
+		}
+		for _, st := range FieldStores(f, last) {
+			if f == spec && inPlace[st] {
+				continue
+			}
+			others = append(others, FuncName(f)+" at "+p.Pos(st.Pos()))
+		}
+	}
+	r.Check(len(others) == 0, label+".only-writer", pos, "no other function writes LastSpecies", "LastSpecies is also written by "+strings.Join(others, "; ")+": an id can be issued twice")
+}
+
+// checkFoundingInPlace examines the foundings that speciate performs itself (a fresh species created inside the
+// loop over the organisms): on every pass over an organism that creates a species, exactly one is created, LastSpecies
+// is incremented exactly once and is the new species' id, the species is novel, appended to the population, lists the
+// organism and is pointed back to by it. Returns the number of founding sites and the LastSpecies increments that belong to them.
+func (r *Run) checkFoundingInPlace(label string) (int, map[*ssa.Store]bool) {
+	p := r.P
+	fn := p.Func(PkgG, "Population.speciate")
+	sums := NewSummaries(p)
+	freshAll := freshSpeciesValues(p, sums, fn)
+	incs := map[*ssa.Store]bool{}
+	if len(freshAll) == 0 {
+		return 0, incs
+	}
+	r.Fn(FuncName(fn))
+	tm := NewTermer(fn)
+	loops := Loops(fn)
+	var outer *Loop
+	for _, l := range loops {
+		if loopRangesOver(tm, l, "p2") && (outer == nil || len(l.Blocks) > len(outer.Blocks)) {
+			outer = l
+		}
+	}
+	if outer == nil {
+		r.Undecided(label+".ctor", p.Pos(fn.Pos()), "speciate creates species itself but has no loop over the organisms it is given")
+		return len(freshAll), incs
+	}
+	paths, complete := EnumIterPaths(fn, outer, 2000)
+	if !complete {
+		r.Undecided(label+".ctor", p.Pos(fn.Pos()), "too many paths through one iteration of the organism loop")
+		return len(freshAll), incs
+	}
+	r.PathsExplored += len(paths)
+	type site struct {
+		n                                     int
+		one, inc, id, after, novel, age, link bool
+		idDesc, why, links                    string
+	}
+	sites := map[ssa.Value]*site{}
+	last := p.Field(PkgG, "Population", "LastSpecies")
+	strayInc := ""
+	for _, ip := range paths {
+		if pathContradictsNil(ip) {
+			continue
+		}
+		fresh := freshOnPath(ip, freshAll)
+		if ip.End != "back" {
+			continue
+		}
+		if len(fresh) == 0 {
+			// no founding on this pass: the counter stays as it is
+			for _, b := range ip.Blocks[:len(ip.Blocks)-1] {
+				for _, in := range b.Instrs {
+					if st, ok := in.(*ssa.Store); ok && StoredField(st) == last {
+						strayInc = p.Pos(st.Pos())
+					}
+				}
+			}
+			continue
+		}
+		for _, sp := range fresh {
+			s := sites[sp]
+			if s == nil {
+				s = &site{one: true, inc: true, id: true, after: true, novel: true, age: true, link: true, idDesc: "?"}
+				sites[sp] = s
+			}
+			s.n++
+			s.one = s.one && len(fresh) == 1
+			ff := foundingOnPath(p, sums, fn, tm, loops, outer, ip, sp)
+			if ff.Why != "" {
+				s.why = ff.Why
+				continue
+			}
+			s.inc = s.inc && ff.IncOK && ff.Once
+			s.id = s.id && ff.IdOK
+			s.after = s.after && ff.After
+			s.idDesc = ff.IdDesc
+			s.novel = s.novel && ff.Novel
+			s.age = s.age && ff.Age
+			s.link = s.link && ff.Appended && ff.Added && ff.Back
+			s.links = fmt.Sprintf("new species appended=%v, lists the organism=%v, organism points back=%v", ff.Appended, ff.Added, ff.Back)
+			if ff.IncOK && len(fresh) == 1 {
+				incs[ff.Inc] = true
+			}
+		}
+	}
+	n := 0
+	for _, sp := range freshAll {
+		s := sites[sp]
+		spPos := p.Pos(sp.Pos())
+		if s == nil {
+			// created on no pass that returns to the loop over the organisms: not part of the speciation of an organism
+			r.Bad(label+".ctor", spPos, "speciate creates a species outside a completed pass over an organism")
+			continue
+		}
+		n++
+		r.Check(s.one, label+".ctor", spPos, "one species construction per founding", "a pass over an organism creates more than one new species")
+		r.Check(s.inc && strayInc == "", label+".id-increment", spPos, "LastSpecies is incremented (once, on every founding pass and on no other)", "a pass over an organism that founds a species does not increment LastSpecies exactly once, or a pass that founds none changes it ("+strayInc+"): species ids are reused")
+		if s.why != "" {
+			r.Undecided(label+".NewSpeciesNovel", spPos, "state of the new species: "+s.why)
+			continue
+		}
+		r.Check(s.id, label+".id", spPos, "the id is LastSpecies after the increment", "the new species' id is "+s.idDesc+" (increment before use: "+fmt.Sprint(s.after)+")")
+		r.Check(s.novel, label+".novel", spPos, "created novel", "the new species is not created novel: it is aged in the turnover that founded it")
+		r.Check(s.link, label+".links", spPos, "appended to the population, lists the organism, organism points back", s.links)
+		ctorPos := spPos
+		if c, ok := sp.(*ssa.Call); ok && c.Call.StaticCallee() != nil {
+			ctorPos = p.Pos(c.Call.StaticCallee().Pos())
+		}
+		r.Check(s.age, label+".NewSpeciesNovel", ctorPos, "a fresh species with Age 1, Id and IsNovel as given", "the new species is not a fresh object of Age 1 when the pass over the organism ends")
+	}
+	return n, incs
 }
